@@ -443,3 +443,24 @@ package statsd
 //@ func (*HttpForwarderHandlerV2).releaseSem
 //@   trusted
 //@   modifies everything
+
+// ---- flusher.go (C18): the elapsed time handed to the aggregators --------------------------------------------
+// Every flush is driven by a tick value taken from the ticker's channel, and the elapsed time passed on is the
+// difference between this tick value and the previous one (the start time for the first flush) -- with the
+// aligned ticker, whose tick values are aligned (util.sendTick), a positive multiple of the interval.
+//@ func (*MetricFlusher).Run
+//@   requires f != nil
+//@   callsite flushData requires flushInterval == nanos(lastreceived(ch)) - nanos(lastFlush) && received(ch) >= 1
+//@   callsite NotifyFlush requires d == nanos(lastreceived(ch)) - nanos(lastFlush)
+//@   loop 1 invariant received(ch) >= 0 && (received(ch) >= 1 ==> nanos(lastFlush) == nanos(lastreceived(ch)))
+//@   modifies everything
+//@ func (*MetricFlusher).flushData
+//@   trusted
+//@   modifies everything
+//@ func (*MetricFlusher).makeTicker
+//@   trusted
+//@   ensures result0 != nil && result1 != nil
+//@   modifies everything
+// the ticker's stop function
+//@ functype stopFn() sig func()
+//@   modifies everything
